@@ -16,11 +16,14 @@ Arguments mp_body : simpl never.
 Lemma be_acc_app n : forall v acc, be_acc n v acc = be_acc n v [] ++ acc.
 Proof.
   induction n as [|n IH]; intros v acc; simpl; [reflexivity|].
-  rewrite IH. rewrite (IH (v / 256) [v mod 256]). rewrite <- app_assoc. reflexivity.
+  rewrite IH. rewrite (IH (Z.shiftr v 8) [Z.land v 255]). rewrite <- app_assoc. reflexivity.
 Qed.
 
 Lemma be_S n v : be (S n) v = be n (v / 256) ++ [v mod 256].
-Proof. unfold be. simpl. apply be_acc_app. Qed.
+Proof.
+  unfold be. simpl. rewrite be_acc_app.
+  rewrite Z.shiftr_div_pow2 by lia. change 255 with (Z.ones 8). rewrite Z.land_ones by lia. reflexivity.
+Qed.
 
 Lemma be_length n : forall v, length (be n v) = n.
 Proof.
